@@ -149,6 +149,36 @@ Theorem C15_mask_chain_u8_outside_zero : forall m c, umask_wf m -> is_byte c -> 
 Proof. intros m c. exact (umask_outside_zero m c). Qed.
 Print Assumptions C15_mask_chain_u8_outside_zero.
 
+
+(* ================================================================== second pass *)
+(* group opacity as tiny-skia's highp pipeline applies it (load * 1/255, * opacity, SourceOver onto transparent, round-to-nearest-even
+   store), exact binary32, ALL 65 536 (premultiplied channel, opacity byte) pairs: never adds paint, 0 at opacity 0, unchanged at
+   opacity 1, monotone in the opacity *)
+Theorem C15_opacity_u8 : forall c k, is_byte c -> is_byte k ->
+  let v := opacity_u8 c (fst (op_pair k)) in
+  (0 <= v <= c)%Z /\ (k = 0%Z -> v = 0%Z) /\ (k = 255%Z -> v = c) /\ ((k < 255)%Z -> (v <= opacity_u8 c (snd (op_pair k)))%Z).
+Proof. exact opacity_u8_facts. Qed.
+Print Assumptions C15_opacity_u8.
+
+Theorem C15_group_paint_shape : group_paint_is_opacity_nearest = true /\ op_pair 128 = (opacity_of_byte 128, opacity_of_byte 129).
+Proof. split; reflexivity. Qed.
+Print Assumptions C15_group_paint_shape.
+
+(* any chain of apply_mask bytes (clip-path on clip-path on ..., clip + mask of nested groups): never increases, every further level
+   removes at least as much, and one level with no coverage (byte 0) makes the result exactly 0 *)
+Theorem C15_scale_chain_u8 : forall ms ns c, is_byte c -> Forall is_byte ms -> Forall is_byte ns ->
+  (0 <= scale_chain c ms <= c)%Z /\ (scale_chain c (ms ++ ns) <= scale_chain c ms)%Z /\ (In 0%Z ms -> scale_chain c ms = 0%Z).
+Proof.
+  intros ms ns c Hc Hm Hn. split; [apply scale_chain_le; assumption|]. split; [apply scale_chain_prefix; assumption|].
+  apply scale_chain_zero; assumption.
+Qed.
+Print Assumptions C15_scale_chain_u8.
+
+(* the luminance coefficient of ANY mask content pixel (coloured, translucent, even invalid) is a byte: the factor is in [0,1] *)
+Theorem C15_luminance_coef_byte : forall r g b a, is_byte (lum_mask_u8 r g b a).
+Proof. exact lum_coef_byte. Qed.
+Print Assumptions C15_luminance_coef_byte.
+
 (* non-vacuity *)
 Example C15_ex_half : clip_factor [(false, 1 # 2); (false, 1 # 2)] 1 == 3 # 4.
 Proof. vm_compute. reflexivity. Qed.
@@ -162,4 +192,7 @@ Example C15_ex_mask_chain :
   eval_mask (MMask (1 # 2) 1 (Some (MMask (1 # 2) 1 (Some (MMask 1 (1 # 2) None))))) == 1 # 8 /\
   umask_apply (UMask true 128 128 128 255 255 (Some (UMask false 0 0 0 128 255 None))) 200 = 50%Z /\
   umask_apply (UMask true 255 255 255 255 255 (Some (UMask false 0 0 0 255 0 None))) 200 = 0%Z.
+Proof. vm_compute. repeat split; reflexivity. Qed.
+Example C15_ex_opacity : opacity_u8 200 (opacity_of_byte 128) = 100%Z /\ opacity_u8 255 (opacity_of_byte 1) = 1%Z /\
+  scale_chain 200 [128; 128; 255]%Z = 50%Z /\ scale_chain 200 [255; 0; 255]%Z = 0%Z.
 Proof. vm_compute. repeat split; reflexivity. Qed.
